@@ -151,6 +151,7 @@ class Interp(object):
         self.issues = {}          # (kind, id(node)) -> Issue
         self.sites = {}           # (kind, id(node)) -> (fi, node)   every constraint site evaluated
         self.sink_obs = []        # (sink kind, fi, node, V)
+        self.sink_stacks = []     # call stack (fids) of each sink observation, same index
         self.depth = 0
         self.closures = {}        # closure tag -> (fi, env)
         self.stack = []
@@ -164,6 +165,7 @@ class Interp(object):
             self.issues = {}
             self.sites = {}
             self.sink_obs = []
+            self.sink_stacks = []
             args = self.solve_args(solve)
             self.call_function(solve, args, None)
             if not self.fields_changed:
@@ -212,7 +214,7 @@ class Interp(object):
                 ck = hash(tuple(sorted((k, v) for k, v in closure_env.items() if _hashable(v))))
             except TypeError:
                 ck = id(closure_env)
-        key = (fi.fid, tuple(sorted((k, v) for k, v in args.items())), ck)
+        key = (fi.fid, tuple(sorted((k, v) for k, v in args.items())), ck, any(f.startswith("model.Model.") for f in self.stack))
         if key in self.memo:
             return self.memo[key]
         if self.depth > self.MAXDEPTH or fi.fid in self.stack:
@@ -742,6 +744,7 @@ class Interp(object):
                                "user callback %s is evaluated at a point in frame %s (internal coordinates), not in user coordinates" % (role, x.f),
                                "%s|callback-not-in-user-frame|%s" % (fi.fid, role))
                 self.sink_obs.append((role, fi, node, x))
+                self.sink_stacks.append(tuple(self.stack))
             if role == "prox_uh":
                 return vec("U")
             if role == "objfun":
